@@ -1,9 +1,28 @@
 import PersimVerif.Drv.Util
-/-! driver commands: Sliced (stub until the model lands) -/
+import PersimVerif.Model.Sliced
+/-! driver commands for C15 (model at `Float`):
+    `sw <PD1> <PD2> <dirs> <diag_theta> <sqrt2>`  →  the value, or `err:ZeroDivisionError` for `M = 0`;
+    `sw.old …` the same with the projection of the old code.
+    `dirs`/`diag_theta` are the float32 direction vectors of the code as exact rationals. -/
 namespace PersimVerif.Drv.Sliced
 open PersimVerif Val PersimVerif.Drv
 
 def handle : Handler
+  | "sw", [a, b, ds, dd, s] => do
+    let p1 ← floatDgm? a
+    let p2 ← floatDgm? b
+    let dirs ← floatDgm? ds
+    let dd ← pointOf? asFloat? dd
+    let s ← asFloat? s
+    match PersimVerif.Sliced.sw Float.ofNat dd s dirs p1 p2 with
+    | .ok v => pure (flt v)
+    | .error _ => pure (err "ZeroDivisionError")
+  | "sw.old", [a, b, ds, dd] => do
+    let p1 ← floatDgm? a
+    let p2 ← floatDgm? b
+    let dirs ← floatDgm? ds
+    let dd ← pointOf? asFloat? dd
+    pure (flt (PersimVerif.Sliced.swValOld Float.sqrt Float.ofNat dd dirs p1 p2))
   | _, _ => none
 
 end PersimVerif.Drv.Sliced
